@@ -474,6 +474,9 @@ pub struct ChanWorld {
     /// the ids under which the channel is reachable: the initial id, and the permanent id when `setup_channel` was
     /// given one (optional 10th token of the `setup` op); requests alternate between them
     pub ids: Vec<ChannelId>,
+    /// index into `ids` of the id used for every request before the first closing signature
+    pub build_id: usize,
+    pub close_signed: bool,
     /// the harness's OWN ledger of the latest commitments, kept from the requests the signer ACCEPTED (never read
     /// back from the signer's enforcement state): next holder / counterparty numbers, the validated holder
     /// commitment that is not yet revoked-into-current (the LAST accepted content for that number), the current
@@ -725,8 +728,13 @@ impl World {
     }
 
     /// the channel id this request goes through (the channel is reachable under every id in `ids`)
+    /// Until a closing signature has been returned every request goes through ONE of the ids (which one: the
+    /// `<perm>` token of the setup op, 1 = the initial id, 2 = the permanent id), afterwards the requests alternate.
     fn cid(&self) -> ChannelId {
         let cw = self.chan.as_ref().unwrap();
+        if cw.ids.len() == 2 && !cw.close_signed {
+            return cw.ids[cw.build_id].clone();
+        }
         cw.ids[self.opno % cw.ids.len()].clone()
     }
 
@@ -875,7 +883,8 @@ impl World {
         }
         // optional: <perm> = setup_channel is given a permanent channel id different from the initial one;
         // <gap> = number of blocks that arrive between the creation of the stub and setup_channel
-        let perm = a.get(9).cloned().unwrap_or(0) != 0;
+        let perm_tok = a.get(9).cloned().unwrap_or(0);
+        let perm = perm_tok != 0;
         let gap = a.get(10).cloned().unwrap_or(0);
         if gap > 50 {
             return "bad-op".into();
@@ -976,7 +985,7 @@ impl World {
                 self.chan = Some(ChanWorld {
                     ready: false,
                     node_ctx, chan_ctx, setup: sn, funding_tx, blocks: Vec::new(), chain_mode: 0, filler: 0,
-                    seen_cp: BTreeSet::new(), seen_hold: BTreeSet::new(), own_chain: (3 + gap, 0, 0), own_kinds: Vec::new(), base_h: 3 + gap, ids: ids.clone(),
+                    seen_cp: BTreeSet::new(), seen_hold: BTreeSet::new(), own_chain: (3 + gap, 0, 0), own_kinds: Vec::new(), base_h: 3 + gap, ids: ids.clone(), build_id: if perm_tok >= 2 { 1 } else { 0 }, close_signed: false,
                     led_nh: 0, led_nc: 0, led_pending: None, led_hold: None, led_cp: None,
                 });
                 format!("err:{}", c)
@@ -1011,7 +1020,7 @@ impl World {
                 self.chan = Some(ChanWorld {
                     ready: true,
                     node_ctx, chan_ctx, setup: sn, funding_tx, blocks: Vec::new(), chain_mode: 0, filler: 0,
-                    seen_cp: BTreeSet::new(), seen_hold: BTreeSet::new(), own_chain: (3 + gap, 0, 0), own_kinds: Vec::new(), base_h: 3 + gap, ids: ids.clone(),
+                    seen_cp: BTreeSet::new(), seen_hold: BTreeSet::new(), own_chain: (3 + gap, 0, 0), own_kinds: Vec::new(), base_h: 3 + gap, ids: ids.clone(), build_id: if perm_tok >= 2 { 1 } else { 0 }, close_signed: false,
                     led_nh: 0, led_nc: 0, led_pending: None, led_hold: None, led_cp: None,
                 });
                 "ok".into()
@@ -1840,6 +1849,7 @@ impl World {
         let funding = cw.chan_ctx.setup.funding_outpoint;
         let cp_funding = cw.chan_ctx.setup.counterparty_points.funding_pubkey;
         let ids = cw.ids.clone();
+        self.chan.as_mut().unwrap().close_signed = true;
         for id in &ids {
             let closed = node.with_channel(id, |c| Ok(c.enforcement_state.channel_closed)).unwrap_or(false);
             if !closed {
